@@ -222,6 +222,14 @@ Section Concrete.
     c_traverse_df_btt c ftrue F n = Ok (filter (fun x => N.eqb x n || F x) (a_df_btt t n)).
   Proof. intros Hn. unfold c_traverse_df_btt, h_traverse_df_btt. walk traverse_df_btt_spec. exact fu_ge. Qed.
 
+  Theorem c_sort_ambient D l : (forall n, In n l -> In n (ids t) /\ h_is_tag h n = true) ->
+    (forall x, In x (flat_map subtrees (ikids t)) -> D (iid x) = false -> forall n, In n l -> ~ In n (ids x)) ->
+    c_sort c D l = Ok (a_doc_sort t l).
+  Proof. intros H Hh. unfold c_sort, h_sort. walk sort_ambient_spec. exact (fun _ => []). Qed.
+  Theorem c_traverse_bf_ambient D F n : In n (ids t) ->
+    exists d, lvg (vis_children t D) d (vis_children t D n) = lvg (vis_children t D) (S d) (vis_children t D n)
+      /\ c_traverse_bf c D F n = Ok ((if F n then [n] else []) ++ filter F (lvg (vis_children t D) d (vis_children t D n))).
+  Proof. intros Hn. unfold c_traverse_bf, h_traverse_bf. walk traverse_bf_ambient_spec. pose proof fu_walk. lia. Qed.
   Theorem c_traverse_df_btt_ambient D F n : In n (ids t) ->
     c_traverse_df_btt c D F n = Ok (filter (fun x => N.eqb x n || F x) (a_post_vis t D n)).
   Proof. intros Hn. unfold c_traverse_df_btt, h_traverse_df_btt. walk traverse_df_btt_ambient_spec. exact fu_ge. Qed.
